@@ -481,6 +481,27 @@ func indexDischarged(fn *ssa.Function, blk *ssa.BasicBlock, base, index ssa.Valu
 					return true
 				}
 			}
+			// range over another list A, and base was made with exactly len(A) elements
+			for _, ref := range *bo.Referrers() {
+				cmp, ok := ref.(*ssa.BinOp)
+				if !ok || cmp.Op != token.LSS || cmp.X != bo {
+					continue
+				}
+				lenA, ok := cmp.Y.(*ssa.Call)
+				if !ok {
+					continue
+				}
+				if bi, ok := lenA.Call.Value.(*ssa.Builtin); !ok || bi.Name() != "len" {
+					continue
+				}
+				if mk, ok := base.(*ssa.MakeSlice); ok {
+					if l2, ok := mk.Len.(*ssa.Call); ok {
+						if bi, ok := l2.Call.Value.(*ssa.Builtin); ok && bi.Name() == "len" && (l2.Call.Args[0] == lenA.Call.Args[0] || rootOf(l2.Call.Args[0], 0) == rootOf(lenA.Call.Args[0], 0)) {
+							return true
+						}
+					}
+				}
+			}
 			// range over another list A whose length was tested equal to len(base)
 			for _, ref := range *bo.Referrers() {
 				cmp, ok := ref.(*ssa.BinOp)
